@@ -40,7 +40,7 @@ func checkC02(c *Ctx) {
 	c.Rule("R2.7", "error expansion: message, Causes, Verbose-if-different; nil causes skipped", 4)
 	c.Rule("R2.8", "reflection fallback: HTML escaping off, null shortcut, reset before / trim after", 3)
 	c.Rule("R2.9", "nesting: objects/arrays/namespaces are closed at the level they were opened on every path (incl. marshaler errors)", 10)
-	c1Namespace(c, "R2.9")
+	c1Namespaces(c, "R2.9")
 	c1Pairing(c, "R2.9")
 	c2Entry(c)
 	c2Wrappers(c)
